@@ -46,7 +46,7 @@ PROPS['C02'] = {
     'level_note': 'trusted: Kani/CBMC/solver soundness, oracle = repeated single-bit steps written from the Intel manual',
 }
 PROPS['C03'] = {
-    'explanation': 'MUL/IMUL/DIV/IDIV, AAA/AAS/DAA/DAS/AAM/AAD, CBW/CWD kernels against wide-arithmetic references; '
+    'explanation': RUN_NOTE + ' -- INT(0) from the first instruction: the divide-error message shows the line of that instruction and nothing is executed afterwards (two-instruction programs, DESIGN.md section 6).  ' + 'MUL/IMUL/DIV/IDIV, AAA/AAS/DAA/DAS/AAM/AAD, CBW/CWD kernels against wide-arithmetic references; '
                    'divide error = Err for a zero divisor or a quotient that does not fit; no implicit check can fail',
     'bounds': 'loop-free: every AX / DX:AX, operand, flag word, register and memory content',
     'outside': 'the driver\'s INT 0 message and exit (inside CMDDriver::run)',
@@ -97,7 +97,7 @@ PROPS['C06'] = {
     'level_note': 'trusted: Kani/CBMC/solver soundness; JLE/JNG is a known finding (pinned by a repository test)',
 }
 PROPS['C07'] = {
-    'explanation': 'the ten string kernels (element at DS:SI / ES:DI, +-1/+-2 by DF, CMPS/SCAS flags = SUB, nothing else changes), '
+    'explanation': RUN_NOTE + ' -- REPEAT from the first instruction: the same index is handed to the interpreter again (two-instruction programs, DESIGN.md section 6).  ' + 'the ten string kernels (element at DS:SI / ES:DI, +-1/+-2 by DF, CMPS/SCAS flags = SUB, nothing else changes), '
                    'the mnemonic -> kernel table, and the REP/REPE/REPNE productions driven through the REPEAT protocol to '
                    'completion with a scripted body (arbitrary sequence of ZF outcomes) against the architectural loop',
     'bounds': 'kernels: loop-free, all states; REP protocol: CX <= 3 (quick) / CX <= 8 (thorough), unwinding assertions on; larger CX outside the claim',
@@ -172,7 +172,7 @@ PROPS['C12'] = {
 }
 PROPS['C08'] = {
     'e2': True,
-    'explanation': 'bookkeeping obligations only: (assembler) a code label is recorded as the index of the next emitted instruction, a procedure as the index of its first '
+    'explanation': RUN_NOTE + ' -- execution begins at the index of start; NEXT / PRINT continue at index + 1, JMP(t) at t, the appended hlt ends the run; a print statement reaches the print reader exactly once (two-instruction programs, DESIGN.md section 6).  ' + 'bookkeeping obligations only: (assembler) a code label is recorded as the index of the next emitted instruction, a procedure as the index of its first '
                    'instruction, the closing brace / RET emit exactly one "ret", CALL is accepted iff the name is a procedure; (interpreter) CALL pushes its index + 1 and '
                    'continues at the recorded index, RET resumes at the innermost pushed index (2 nested calls, arbitrary pre-existing frame), RET without CALL is an error value',
     'bounds': 'out.code holds <= 3 lines, tables hold one name, call nesting 2 (+1 pre-existing frame); String loops unwound 6-8 times',
@@ -199,7 +199,7 @@ PROPS['C14'] = {
     'level_note': 'the two driver-level checks are decided on the real text of run() with a stubbed environment (one-instruction programs)',
 }
 PROPS['C18'] = {
-    'explanation': 'interrupts::int_21 (AH=1, 2, 0Ah) and int_13 (INT 10h AH=0Ah, 13h) of the binary crate, with the console boundary replaced: print! -> ghost log of '
+    'explanation': RUN_NOTE + ' -- INT 10h / INT 21h from the first instruction: the service is called exactly once with AH iff AH is supported (0Ah, 13h / 1, 2, 0Ah); otherwise a message with the line of the instruction and nothing further (two-instruction programs, DESIGN.md section 6).  ' + 'interrupts::int_21 (AH=1, 2, 0Ah) and int_13 (INT 10h AH=0Ah, 13h) of the binary crate, with the console boundary replaced: print! -> ghost log of '
                    '(format literal, argument values), stdin read_line -> arbitrary bounded ASCII line.  Exact output events, AL results, stored count / bytes, and the frame '
                    '(no other cell, register or flag changes; no address outside 1 MiB; no abort)',
     'bounds': 'input line: lengths 0, 1, 2 enumerated with symbolic content (quick), + 3 and 6 (AH=1) in the thorough tier; CX <= 4 / 8, DL <= 4 / 8 for the output loops; capacity byte, DS:DX, ES:BP, memory unconstrained',
@@ -251,11 +251,26 @@ PROPS['C11'] = {
     'level_note': 'trusted: as C10; first operand = destination in every interpreter production is established by the B-harnesses of C01/C02/C05',
 }
 
+PROPS['C20'] = {
+    'extra_harnesses': r'_run_first_|^c16_run_first_instruction|^c15_run_empty_program$',
+    'explanation': RUN_NOTE + ': programs of 2 instructions in which the first executed instruction returns each result kind in turn (NEXT, JMP(any index), PRINT, REPEAT, INT 0, INT 3, INT 10h, INT 21h; '
+                   'one harness per kind) and leaves ANY flag word (so it may set or clear TF) and ANY AX, for both values of the interpreted switch and every start index, compared event by event with a reference run loop: '
+                   'exactly one prompt (preceded by a message that shows the line get_err_pos answers for the position recorded for THAT instruction) before each instruction that is executed while the switch or TF is on, '
+                   'none otherwise and none for the appended hlt; INT 3 prompts once and continues; the next instruction is the one the state selects whatever the stepping mode (transparency of the instruction sequence); '
+                   'the machine is not touched between instructions; empty program: no prompt, no abort',
+    'bounds': 'two executed instructions (the second one is answered HALT by the script), result kind of the first fixed per harness, its data symbolic; unwind 12 with unwinding assertions',
+    'outside': 'the prompt loop user_interface() itself (print commands, n / next, q / quit, end of input): its harness (attic/ui_c20.rs) does not finish on any back end (DESIGN.md section 6); longer runs and a symbolic '
+               'result KIND (7-way) do not finish either; real stdin/stdout and exit status; equality of the final machine state follows from the same instruction sequence + the prompt taking the machine by shared reference + C19 determinism, it is not re-decided',
+    'backends': [(r'.*', ['sat', 'z3'])],
+    'timeout': {'quick': 1200, 'thorough': 3000},
+    'assumptions': ['driver.rs is compiled from a copy whose `use` lines name the stubs of harness/drv.rs; the function body is unchanged',
+                    'interpreter stub: the appended hlt halts, jump targets <= number of instructions (C06/C08 bookkeeping obligations); get_err_pos stub: arbitrary (line, start <= end <= text length) per call',
+                    'recorded source positions are concrete and pairwise distinct (0, 7, 300, 65541): a symbolic scalar inside the assembler result makes CBMC lose the constants of that struct'],
+    'level_text': 'bounded model checking of the real run loop text for the first two instructions with the environment as nondeterministic stubs',
+    'level_note': 'partial claim: the run-loop clauses (prompt placement, INT 3, transparency of the instruction sequence) for two instructions; the prompt commands and end of input are NOT decided',
+}
+
 NOT_APPLICABLE = {
-    'C20': 'stepping, breakpoints and the prompt live inside CMDDriver::run()/user_interface().  This round compiled the REAL text of both under Kani (copies with only the imports and the '
-           'std::io / std::process calls redirected to stubs, harness/drv.rs, attic/ui_c20.rs) and wrote a reference run loop / prompt loop for them, but no back end decides the resulting queries: '
-           'a program of ONE instruction with ONE symbolic interpreter result does not finish in 7 min (cadical 7.5 GB, z3), the prompt loop on immediate end of input not in 400 s (std String / Vec code on '
-           'the heap; details in DESIGN.md section 6).  Only the shapes in which run() ends before or in its first iteration are decided; they are claimed under C14 and C15, not here',
 
     'C13': 'macro definition/use is regex::Regex + a recursive call of the generated parser on heap strings; Kani cannot compile the regex engine or the LALRPOP driver (compiler ICE), and a hand model of the substitution would not be the real code',
 }
